@@ -208,6 +208,13 @@ class Arr:
     _default_float = float32
     __array_priority__ = 1000
 
+    def __getattr__(self, name):
+        # only reached for attributes that do not exist: a public tensor method that is not modelled is an HONEST inconclusive, not an AttributeError
+        # that the code under analysis (or a harness) could mistake for behaviour of the real library
+        if name.startswith("_") or name in ("grad", "grad_fn", "requires_grad", "is_leaf", "names"):
+            raise AttributeError(name)
+        raise ShimUnsupported(f"{type(self).__name__}.{name} is not modelled")
+
     def __init__(self, storage, shape, strides=None, offset=0, dtype=None, kind="real"):
         self._storage = storage
         self.shape = Size(shape)
@@ -595,6 +602,29 @@ class Arr:
             v = val._as_scalar() if isinstance(val, Arr) else val
             cur = self._flat()
             self._write([(v if bool(_to_bool(mk)) else x) for mk, x in zip(idx._flat(), cur)])
+            return
+        pidx = self._index_prepare(idx)
+        adv = [k for k, i in enumerate(pidx) if isinstance(i, (list, Arr))]
+        if adv:
+            # x[..., index_tensor, ...] = v : advanced indexing yields a COPY on read, so the write must go element-wise through basic views
+            if len(adv) != 1 or any(i is None for i in pidx):
+                raise ShimUnsupported("assignment through multiple advanced indices")
+            k = adv[0]
+            sel = pidx[k]
+            if isinstance(sel, Arr) and sel.dim() != 1:
+                raise ShimUnsupported("assignment through an advanced index of rank != 1")
+            sel = [int(x) for x in (sel._flat() if isinstance(sel, Arr) else sel)]
+            d = sum(1 for i in pidx[:k] if not isinstance(i, int))  # dimension of the result along which the picked slices are stacked
+            shape_probe = list(self[tuple(pidx[:k] + [0] + pidx[k + 1:])].shape) if self.shape[sum(1 for i in pidx[:k])] else []
+            full = shape_probe[:d] + [len(sel)] + shape_probe[d:]
+            if isinstance(val, Arr):
+                if type(val) is not type(self):
+                    raise TypeError(f"can't assign a {type(val).__name__} to a {type(self).__name__}")
+                vb = _broadcast_to(val, full)
+            for pos, j in enumerate(sel):
+                sub = list(pidx)
+                sub[k] = j
+                self[tuple(sub)] = vb.select(d, pos) if isinstance(val, Arr) else val
             return
         target = self[idx]
         if isinstance(val, Arr):
@@ -1103,6 +1133,77 @@ class Arr:
             d = self._norm_dim(d)
             r = _stack([r.select(d, i) for i in reversed(range(r.shape[d]))], d) if r.shape[d] else r
         return r.clone() if r is self else r
+
+    # ------------------------------------------------------------------ splitting (all results are views, as in torch)
+    def split(self, split_size_or_sections, dim=0):
+        dim = self._norm_dim(dim)
+        n = self.shape[dim]
+        if isinstance(split_size_or_sections, int):
+            k = split_size_or_sections
+            if k <= 0 and n > 0:
+                raise RuntimeError("split expects split_size be non-negative and non-zero for a non-empty dimension")
+            sizes = [min(k, n - a) for a in range(0, n, k)] if n else [0]
+        else:
+            sizes = [int(x) for x in split_size_or_sections]
+            if sum(sizes) != n:
+                raise RuntimeError(f"split_with_sizes expects split_sizes to sum exactly to {n} (input tensor's size at dimension {dim}), but got split_sizes={sizes}")
+        out, a = [], 0
+        for k in sizes:
+            out.append(self.narrow(dim, a, k))
+            a += k
+        return tuple(out)
+
+    def chunk(self, chunks, dim=0):
+        dim = self._norm_dim(dim)
+        n = self.shape[dim]
+        k = -(-n // chunks) if n else 1
+        return self.split(k, dim)
+
+    def unbind(self, dim=0):
+        dim = self._norm_dim(dim)
+        return tuple(self.select(dim, i) for i in range(self.shape[dim]))
+
+    def masked_fill(self, mask, value):
+        v = value._as_scalar() if isinstance(value, Arr) else value
+        shape = _bshape(self.shape, mask.shape)
+        mf = _broadcast_to(mask, shape)._flat()
+        xf = _broadcast_to(self, shape)._flat()
+        return self._like([(lift(v) if bool(_to_bool(mk)) else x) for mk, x in zip(mf, xf)], shape)
+
+    def masked_fill_(self, mask, value):
+        self._write(self.masked_fill(mask, value)._flat())
+        return self
+
+    def index_select(self, dim, index):
+        dim = self._norm_dim(dim)
+        idx = [int(x) for x in index._flat()]
+        return _stack([self.select(dim, i) for i in idx], dim) if idx else self.narrow(dim, 0, 0).clone()
+
+    def cumsum(self, dim):
+        dim = self._norm_dim(dim)
+        parts, acc = [], None
+        for i in range(self.shape[dim]):
+            cur = self.select(dim, i)
+            acc = cur if acc is None else acc + cur
+            parts.append(acc)
+        return _stack(parts, dim) if parts else self.clone()
+
+    def clamp_min(self, min):
+        return self.clamp(min=min)
+
+    def clamp_max(self, max):
+        return self.clamp(max=max)
+
+    def amax(self, dim=None, keepdim=False):
+        r = self.max(dim, keepdim)
+        return r if dim is None else r[0]
+
+    def amin(self, dim=None, keepdim=False):
+        r = self.min(dim, keepdim)
+        return r if dim is None else r[0]
+
+    def count_nonzero(self):
+        return sum(1 for x in self._flat() if bool(_to_bool(x != 0) if not isinstance(x, (bool, int)) else x != 0))
 
     def select(self, dim, i):
         dim = self._norm_dim(dim)
